@@ -369,12 +369,14 @@ def replay(pyhf, backend, precision, chunk, header, seed):
             kk = case["key"]["kind"]
             second = phase == "reapplied"
             first_obs = None
+            mutated_by_first = False
             if second:
                 try:
                     ps.apply(w, key)
                     first_obs = "returned"
                 except Exception as e:  # noqa: BLE001
                     first_obs = f"{type(e).__name__}: {str(e)[:120]}"
+                mutated_by_first = json.dumps(held_spec) != held_text
             try:
                 got = ps.apply(w, key)
                 err = None
@@ -383,11 +385,12 @@ def replay(pyhf, backend, precision, chunk, header, seed):
             det = {"spec": spec, "key": repr(key), "workspace": w, "variant": case["vd"], "definition_status": d["status"], "definition_errs": d["errs"],
                    "observed": f"{type(err).__name__}: {str(err)[:200]}" if err is not None else "returned", "impl_layer_predicts": [im["status"], im["errs"]]}
             optag = "ops:" + ("+".join(o["op"] for o in case["patches"][case["target"] - 1]["ops"]) if case["target"] >= 1 else "-")
-            doc_mutated = json.dumps(held_spec) != held_text
+            doc_mutated = mutated_by_first or json.dumps(held_spec) != held_text
             if doc_mutated:
                 out["doc_mutated"] += 1
                 det["patches_of_the_document_after_apply"] = held_spec["patches"]
             pre = ["apply"] if not second else ["reapply"]
+            mod_tag = ["stored_patch_modified"] if doc_mutated else []      # an earlier apply changed the patch held by the PatchSet
             if second:
                 det["first_application"] = first_obs
             which = "apply" if not second else "second apply of the same patch on the same PatchSet"
@@ -406,14 +409,14 @@ def replay(pyhf, backend, precision, chunk, header, seed):
                     det["expected"] = expected
                     if err is not None:
                         add(case, f"{which} raised {det['observed']} where the JSON patch applies and yields a valid workspace", det,
-                            [f"{pre[0]}:raises", f"exc:{type(err).__name__}", optag] + ([] if second else [f"keykind:{kk}", vtag]))
+                            [f"{pre[0]}:raises", f"exc:{type(err).__name__}", optag] + mod_tag + ([] if second else [f"keykind:{kk}", vtag]))
                     else:
                         det["got"] = json.loads(json.dumps(got))
                         if not isinstance(got, pyhf.Workspace):
                             add(case, f"{which} returned a {type(got).__name__}, not a Workspace", det, [f"{pre[0]}:not_workspace"])
                         elif dict(got) != expected:
                             add(case, f"{which} returned another workspace than the JSON patch of the designated patch applied to the input", det,
-                                [f"{pre[0]}:wrong_result", optag] + ([] if second else [f"keykind:{kk}", vtag]))
+                                [f"{pre[0]}:wrong_result", optag] + mod_tag + ([] if second else [f"keykind:{kk}", vtag]))
                         elif got is w:
                             add(case, f"{which} returned the input object", det, [f"{pre[0]}:returns_input"])
                 else:
@@ -424,7 +427,7 @@ def replay(pyhf, backend, precision, chunk, header, seed):
                             [f"{pre[0]}:invalid_result_accepted", optag])
                     elif not isinstance(err, type(ws_exc)):
                         add(case, f"{which} raised {det['observed']} where the JSON patch applies (its result is refused as a workspace: {type(ws_exc).__name__})", det,
-                            [f"{pre[0]}:raises", f"exc:{type(err).__name__}", optag] + ([] if second else [f"keykind:{kk}", vtag]))
+                            [f"{pre[0]}:raises", f"exc:{type(err).__name__}", optag] + mod_tag + ([] if second else [f"keykind:{kk}", vtag]))
             else:
                 if err is None:
                     add(case, f"{which} returned a workspace where the definition demands {'/'.join(d['errs'])}", det,
